@@ -1014,6 +1014,7 @@ def case_signature(case, obs):
 
 class C20(PropertyCheck):
     pid = "C20"
+    claimed = True
     props_modules = ["KDVerif.Props.C20"]
     extra_build = ["KDVerif.Driver.CopyProtocol"]
     driver_main = "mains/CopyProtocol.lean"
@@ -1135,7 +1136,7 @@ class C20(PropertyCheck):
             n2_all = len(c2)
             if quick:
                 self.rng.shuffle(c2)
-                c2 = c2[:1500]
+                c2 = c2[:1000]
             o2 = self._run(pool, c2)
             self._judge(res, c2, o2)
             # depth 3: sampled
@@ -1144,7 +1145,7 @@ class C20(PropertyCheck):
                 for k in crash_points(o["attempts"][-1]):
                     c3.append(dict(c, crashes=c["crashes"] + [k]))
             self.rng.shuffle(c3)
-            c3 = c3[:600 if quick else 6000]
+            c3 = c3[:400 if quick else 6000]
             o3 = self._run(pool, c3)
             self._judge(res, c3, o3)
             n_strace = 0
